@@ -369,7 +369,8 @@ def _virtual_clock_run(text, expire_after, scorer_mode="nb", timeout=1000.0, cou
 
 def h_deadline(rp):
     out = {"func": rp["func"], "clause": rp["clause"]}
-    kind = (rp.get("args") or {}).get("kind")
+    a = rp.get("args")
+    kind = a.get("kind") if isinstance(a, dict) else None
     if kind == "work-growth":
         rows = []
         for n in (3, 4, 5):
@@ -398,6 +399,20 @@ def h_deadline(rp):
         out["violations"] = bad
         out["confirmed"] = bool(bad)
         return out
+    if rp["clause"] == "no-exceptional-exit":
+        # a step of the search may raise: look for a text on which the real search does
+        import importlib
+        from datetime import datetime
+        C = importlib.import_module("ctparse.ctparse")
+        pool = EMISSION_POOL + ["", "hello world", "#tag only", "call mom tomorrow #family", "8", "am", "12.12.", "in 2 weeks"]
+        for text in pool:
+            for depth in (10, 0, 2):
+                try:
+                    list(C.ctparse_gen(text, datetime(2018, 3, 7, 12, 43), timeout=0, max_stack_depth=depth))
+                except Exception as e:
+                    out["failing_input"] = {"text": text, "max_stack_depth": depth, "raises": "%s: %s" % (type(e).__name__, e)}
+                    out["confirmed"] = True
+                    return out
     out["confirmed"] = False
     return out
 
